@@ -224,6 +224,9 @@ impl<'a> Gen<'a> {
         }
         if self.has(F_CLASS) {
             pool.extend_from_slice(&["[ab]", "[^a]", "\\w", "\\d", "[a-c]", "\\s"]);
+            if self.has(F_MULTIBYTE) {
+                pool.extend_from_slice(&["[é]", "[^é]", "[à-ü]"]);
+            }
         }
         if self.has(F_ANCHOR) && self.in_lookbehind == 0 {
             pool.extend_from_slice(&["^", "$", "\\A", "\\z", "\\n", "(?m:^)", "(?m:$)"]);
@@ -473,6 +476,13 @@ pub fn contexts(feats: u32) -> Vec<&'static str> {
         v.push("(?>b??(H)c*\\b)a|.{0,3}");
         v.push("(?:(?>b?(H)c?(?=))a|.)*");
         v.push("(?>(?:b|)(H)(?:c|)(?=))a|(?s:.)*");
+        // constant-size atomic body whose alternatives set different groups, then a
+        // capture-dependent continuation
+        v.push("(?>(H)|(H))\\2");
+        v.push("(?>(H)b|H(b))\\2c|.*");
+        // nested atomic groups entered, abandoned and entered again
+        v.push("(?>(?>(?>a)))(H)(?>c)|ab.?");
+        v.push("(?>(?>a))(H)(?>(?>c))|a.*");
     }
     if feats & F_KEEP != 0 {
         v.push("a\\KH");
@@ -494,7 +504,7 @@ pub fn fill(ctx: &str, filler: &str, filler_is_alt: bool) -> String {
 /// hard = false to its body) x (repeat lowering) x (hard element followed by an easy,
 /// variable-size tail).  Every combination is a corpus item.
 pub fn compile_matrix(full: bool) -> Vec<String> {
-    let ctxs: &[&str] = if full { &["(?>X)", "(?=X)a", "(?!X)a", "(X)", "X", "(?>X)b", "Xb", "(?:X|c)\\b"] } else { &["(?>X)", "(?=X)a", "(?!X)a", "(X)", "X", "(?>X)b", "Xb"] };
+    let ctxs: &[&str] = if full { &["(?>X)", "(?=X)a", "(?!X)a", "(X)", "X", "(?>X)b", "Xb", "(?:X)*(?!a)", "(?:X)+c", "(?:X|c)\\b"] } else { &["(?>X)", "(?=X)a", "(?!X)a", "(X)", "X", "(?>X)b", "Xb", "(?:X)*(?!a)"] };
     let quants: &[&str] = if full { &["{2}", "{1,2}", "{2,}", "*", "+", "?", "*?", "{2}?", "{1,2}?"] } else { &["{2}", "{1,2}", "*", "+", "?", "{2}?", "{1,2}?", "{2,}"] };
     let hards: &[&str] = if full { &["(?=a)", "(?>a)", "\\b", "(?!b)", "(?<=a)", "(a)"] } else { &["(?=a)", "(?>a)", "\\b", "(?!b)", "(?<=a)"] };
     let tails: &[&str] = if full { &["a?", "a*", "a*b?", "(?:a|ab)", "[ab]+?", "(?:ab|a)"] } else { &["a?", "a*b?", "(?:a|ab)", "(?:ab|a)"] };
@@ -554,7 +564,17 @@ pub fn alt_order(common_syntax: bool) -> Vec<String> {
 // ---------------------------------------------------------------------------
 // fixed witnesses (known findings and regression shapes), always run
 
-pub const WITNESSES: [&str; 42] = [
+pub const WITNESSES: [&str; 52] = [
+    "((a)|)\\1*b",
+    "((a)*)\\1+b",
+    "((a)?)\\1*b",
+    "(?:(?:ab?){2})*(?!a)",
+    "(?:(?:a|ab){2}b?){1,2}(?=c)",
+    "(?>(a)b|a(b))\\2c|abbc",
+    "(?>(a)|(a))\\2",
+    "(?>(?>(?>a)))(b)(?>z)|ab",
+    "a|b|c",
+    "(a)\\1|b(?=c)|c",
     "(?m)(b)\\n^(?!\\1)",
     "(?m)(b?)\\n^\\1",
     "(?m)(\\n)+^(?:\\1\\1)?",
